@@ -165,7 +165,10 @@ def r13_3(ctx, rep):
     "its being non-zero clears is_affine",
 )
 def r13_4(ctx, rep):
-    R = "R13.4"
+    affine_rebuild(ctx, rep, "R13.4")
+
+
+def affine_rebuild(ctx, rep, R):
     from ..cfg import CFG
 
     fn = ctx.func(MODEL, "Model.variable_metadata_function", R)
